@@ -1381,9 +1381,12 @@ func ParseClassDeclareStmt(p *ParserZH) *syntax.ClassDeclareStmt {
 		switch tk.Type {
 		case TypeFuncW:
 			stmt := ParseFunctionDeclareStmt(p)
+			// like a method of the module, a method of a type knows its header line
+			p.setStmtCurrentLine(stmt, tk)
 			cdStmt.MethodList = append(cdStmt.MethodList, stmt)
 		case TypeGetterW:
 			stmt := ParseGetterDeclareStmt(p)
+			p.setStmtCurrentLine(stmt, tk)
 			cdStmt.GetterList = append(cdStmt.GetterList, stmt)
 		case TypeObjThisW:
 			stmt := parsePropertyDeclareStmt(p)
